@@ -18,6 +18,7 @@ static rc::Gen<Case> genCase() {
                 else if (type == 1) v = *rc::gen::weightedOneOf<int64_t>({{3, vprc::uni<int64_t>(0, 300)}, {1, rc::gen::element<int64_t>(0xffffffffLL, 0x80000000LL, 0x7fffffffLL)}});
                 else v = *rc::gen::weightedOneOf<int64_t>({{3, vprc::uni<int64_t>(-300, 300)}, {1, rc::gen::element<int64_t>(-32768, 32767, -1)}});
             }
+            if (k == OVR_ON) v = *vprc::uni<int64_t>(0, 5);   // which non-zero integer switches the mode on (1, 2, 0x100, 0xff00, -1, INT_MIN)
             return Op{k, v};
         }));
         return c;
